@@ -469,7 +469,7 @@ func init() {
 	register(&PropDef{
 		ID: "C16", Level: "exploration", Engine: "fedsim",
 		Rule: "case = one client Update / Delete / Add / Remove / Like / Block posted to an outbox with default callbacks: stored objects with random member sets against random partial updates (overlapping, disjoint, null-valued members at object and activity level), 1-3 objects and 1-3 targets (owned / foreign / ordered / unordered / with duplicates), object or target absent or empty in 30% of the cases, per-server clock base, skew and zone; oracle = model of the documented effect compared with the database delta, the liked / target collection order, the outbox, the wire (Block never delivered), the status (400 and no change when a required member is missing) and the Tombstone's deleted time against the simulated clock reading of that request.",
-		QuickCases: 3000, QuickBudgetS: 60, ThoroughBudgetS: 600,
+		QuickCases: 8000, QuickBudgetS: 150, ThoroughBudgetS: 600,
 		Drive:  func(c *DriveCtx, r *Rng, k int) { c.Exec(genC16(r, k)) },
 		Oracle: oracleC16,
 		Assumptions: []string{"'removes the members supplied as JSON null' is read as: null-valued members of the activity's object (the quantifier's 'null-valued members' of partial updates); members that are null only at activity level are not judged"},
